@@ -36,6 +36,7 @@ inductive POp
   | rebuild
   | mutate (k : Coll)
   | reload (k : Coll)       -- the real `reload::Handle::reload`: mutate (event `modify:unlocked`), then rebuild
+  | sgd (c : Nat)           -- `set_global_default` with collector c (events `sgd:ok` / `sgd:err`)
 
 def splitOn' (sep : String) : List String → List String → List (List String)
   | [], cur => [cur.reverse]
@@ -49,6 +50,7 @@ def parseOp : List String → Option POp
   | ["mut", c, spec] => do let c ← c.toNat?; let k ← parseSpec c spec; pure (.mutate k)
   | ["newr", c, spec] => do let c ← c.toNat?; let k ← parseSpec c spec; pure (.new k)
   | ["rl", c, spec] => do let c ← c.toNat?; let k ← parseSpec c spec; pure (.reload k)
+  | ["sgd", c] => c.toNat?.map .sgd
   | _ => none
 
 def parseOps (toks : List String) : Option (List POp) :=
@@ -155,6 +157,28 @@ def finalColls (pre : List POp) (threads : List (List POp)) (events : List Strin
     | _ => none
   muts.reverse ++ allColls pre threads
 
+/-- the one-shot global default: exactly one of the `set_global_default` calls that ran returned Ok (none if there was
+no call), and at quiescence the process-wide default is that call's collector -/
+def checkGlobal (threads : List (List POp)) (events obs : List String) : Option String :=
+  let results := events.filterMap fun ev =>
+    match ev.splitOn "." with
+    | [t, i, name] =>
+      match t.toNat?, i.toNat? with
+      | some t, some i => match (threads[t]?).bind (·[i]?), name with
+        | some (.sgd c), "sgd:ok" => some (c, true)
+        | some (.sgd c), "sgd:err" => some (c, false)
+        | _, _ => none
+      | _, _ => none
+    | _ => none
+  let oks := results.filter (·.2)
+  let gd := obs.filterMap fun o => match o.splitOn ":" with | ["gd", x] => some x | _ => none
+  if results.isEmpty then
+    (if gd.all (· == "-") then none else some s!"global-default {gd} although set_global_default was never called")
+  else if oks.length ≠ 1 then some s!"set_global_default returned Ok {oks.length} times ({oks.map (·.1)})"
+  else match oks.head?, gd with
+    | some (c, _), [x] => if x == toString c then none else some s!"global-default is {x} but the call that returned Ok installed {c}"
+    | _, _ => some "global-default observation missing"
+
 def checkObs (colls : List Coll) (alive : Nat → Bool) : List String → Option String
   | [] => none
   | o :: rest =>
@@ -180,7 +204,10 @@ def judge (toks : List String) : String :=
       | [status, events, obs] =>
         if status != ["ok"] then s!"bad {" ".intercalate status}" else
         -- (1) the property's oracle at quiescence: every live collector receives exactly what its filter accepts
-        match checkObs (finalColls pre threads events) (aliveAtEnd pre threads) (obs.filter (· ≠ "-")) with
+        match checkGlobal threads (events.filter (· ≠ "-")) (obs.filter (· ≠ "-")) with
+        | some e => s!"bad {e}"
+        | none =>
+        match checkObs (finalColls pre threads events) (aliveAtEnd pre threads) (obs.filter (fun o => o ≠ "-" && !o.startsWith "gd:")) with
         | some e => s!"bad {e}"
         | none =>
           -- (2) the run is a run of the proved transition system
